@@ -445,9 +445,8 @@ Lemma main_char : forall t fl argv w o, tool_main t fl argv w = Done o ->
           o_stderr o = (if fst (w_lib w lo bs) =? 0 then MSucceeded t :: out_msgs w out
                         else [MFailed t (fst (w_lib w lo bs))])
       | InOpenFail =>
-          o_call o = None /\ o_exit o = 0 /\ o_sink o = SNone /\
-          ((t = W2X /\ o_stderr o = [MFailedOpenIn name] /\ o_stdout o = []) \/
-           (t = X2W /\ o_stderr o = [] /\ o_stdout o = [MFailedOpenIn name]))
+          o_call o = None /\ o_exit o = 0 /\ o_sink o = SNone /\ o_stdout o = [] /\
+          o_stderr o = [MFailedOpenIn name]
       | InReadErr =>
           o_call o = None /\ o_exit o = 0 /\ o_sink o = SNone /\ o_stdout o = [] /\
           exists n, o_stderr o = [MReadErr n]
@@ -461,7 +460,7 @@ Proof.
   - destruct (length argv' <=? i)%nat.
     + inversion H; subst; cbn. repeat split; auto. exists []. split; [constructor|auto].
     + destruct (input_of w (nth i argv' [])) as [| |bs].
-      * destruct t; inversion H; subst; cbn; repeat split; auto.
+      * inversion H; subst; cbn; repeat split; auto.
       * destruct t; inversion H; subst; cbn; repeat split; eauto.
       * rewrite read_blocks_all in H.
         destruct (w_lib w lo bs) as [code outb]. cbn [fst snd].
@@ -479,7 +478,7 @@ Proof.
   unfold tool_main.
   destruct (tool_parse t fl argv) as [ms|[lo out] argv' i|]; [eauto| |congruence].
   destruct (length argv' <=? i)%nat; [eauto|].
-  destruct (input_of w (nth i argv' [])) as [| |bs]; [destruct t; eauto|destruct t; eauto|].
+  destruct (input_of w (nth i argv' [])) as [| |bs]; [eauto|destruct t; eauto|].
   rewrite read_blocks_all. destruct (w_lib w lo bs) as [code outb].
   destruct (code =? 0); [|eauto].
   destruct out as [n|]; [|eauto]. destruct (str_eqb n s_dash); [eauto|]. destruct (w_open_out w n); eauto.
@@ -526,8 +525,9 @@ Theorem failed_line_iff : forall t fl argv w o, tool_main t fl argv w = Done o -
                (t' = t /\ c <> 0 /\ exists lo data, o_call o = Some (lo, data) /\ fst (w_lib w lo data) = c).
 Proof.
   intros t fl argv w o H t' c. use_char H.
-  - destruct Hc as (Hcall & _ & _ & [(_ & -> & _)|(_ & -> & _)]); rewrite Hcall; cbn; split;
-      try tauto; try (intros [F|[]]; discriminate); intros (_ & _ & lo' & d & F & _); discriminate.
+  - destruct Hc as (Hcall & _ & _ & _ & ->). rewrite Hcall. cbn. split.
+    + intros [F|[]]; discriminate.
+    + intros (_ & _ & lo' & d & F & _); discriminate.
   - destruct Hc as (Hcall & _ & _ & _ & n & ->). rewrite Hcall. cbn. split.
     + intros [F|[]]; discriminate.
     + intros (_ & _ & lo' & d & F & _); discriminate.
@@ -612,24 +612,13 @@ Proof.
   - split; [discriminate|]. intros (F & _). discriminate.
 Qed.
 
-Theorem w2x_always_reports : forall fl argv w o, tool_main W2X fl argv w = Done o -> o_stderr o <> [].
+Theorem always_reports : forall t fl argv w o, tool_main t fl argv w = Done o -> o_stderr o <> [].
 Proof.
-  intros fl argv w o H. use_char H.
-  - destruct Hc as (_ & _ & _ & [(_ & -> & _)|(F & _)]); discriminate.
+  intros t fl argv w o H. use_char H.
+  - destruct Hc as (_ & _ & _ & _ & ->). discriminate.
   - destruct Hc as (_ & _ & _ & _ & n & ->). discriminate.
   - destruct Hc as (_ & _ & _ & _ & ->). destruct (fst (w_lib w lo bs) =? 0); discriminate.
   - destruct Hc as (_ & _ & _ & _ & ms & _ & [->| ->]); [|discriminate].
-    intros F. apply app_eq_nil in F. destruct F; discriminate.
-Qed.
-
-Theorem no_conversion_reported : forall t fl argv w o, tool_main t fl argv w = Done o ->
-  o_stderr o <> [] \/ (t = X2W /\ o_call o = None /\ exists n, o_stdout o = [MFailedOpenIn n]).
-Proof.
-  intros t fl argv w o H. use_char H.
-  - destruct Hc as (Hcall & _ & _ & [(_ & -> & _)|(-> & _ & ->)]); [left; discriminate|right; eauto].
-  - destruct Hc as (_ & _ & _ & _ & n & ->). left. discriminate.
-  - destruct Hc as (_ & _ & _ & _ & ->). left. destruct (fst (w_lib w lo bs) =? 0); discriminate.
-  - destruct Hc as (_ & _ & _ & _ & ms & _ & [->| ->]); left; [|discriminate].
     intros F. apply app_eq_nil in F. destruct F; discriminate.
 Qed.
 
@@ -660,31 +649,15 @@ Qed.
 Theorem unreadable_input_reported : forall t fl argv w o lo out name,
   tool_main t fl argv w = Done o -> request t fl argv = Some (lo, out, name) ->
   (forall bs, input_of w name <> InBytes bs) ->
-  o_call o = None /\ o_exit o = 0 /\ o_sink o = SNone /\
-  (o_stderr o <> [] \/ (t = X2W /\ input_of w name = InOpenFail /\ o_stdout o = [MFailedOpenIn name])).
+  o_call o = None /\ o_exit o = 0 /\ o_sink o = SNone /\ o_stdout o = [] /\
+  (o_stderr o = [MFailedOpenIn name] \/ exists n, o_stderr o = [MReadErr n]).
 Proof.
   intros t fl argv w o lo out name H R NB.
   pose proof (main_char _ _ _ _ _ H) as Hc. rewrite R in Hc.
   destruct (input_of w name) as [| |bs] eqn:I.
-  - destruct Hc as (-> & -> & -> & [(_ & -> & _)|(-> & _ & ->)]); repeat split; auto. left. discriminate.
-  - destruct Hc as (-> & -> & -> & _ & n & ->). repeat split; auto. left. discriminate.
+  - destruct Hc as (-> & -> & -> & -> & ->). repeat split; auto.
+  - destruct Hc as (-> & -> & -> & -> & n & ->). repeat split; eauto.
   - exfalso. eapply NB. reflexivity.
-Qed.
-
-(* the full-strength sentence "unreadable input is reported on standard error" fails for xml2wbxml *)
-Definition refute_argv : list str := [[120]; [102]].      (* "x" "f" *)
-Definition refute_world : world :=
-  mkWorld (Some []) (fun _ => InOpenFail) (fun _ _ => (0, [])) (fun _ => true).
-
-Theorem x2w_unopenable_input_refuted :
-  exists argv w o, tool_main X2W Att argv w = Done o /\
-                   (exists lo out name, request X2W Att argv = Some (lo, out, name) /\ input_of w name = InOpenFail) /\
-                   o_stderr o = [] /\ o_exit o = 0.
-Proof.
-  exists refute_argv, refute_world.
-  eexists. split; [vm_compute; reflexivity|].
-  split; [|split; reflexivity].
-  do 3 eexists. split; vm_compute; reflexivity.
 Qed.
 
 (* ------------------------------------------------------------------ *)
